@@ -244,8 +244,20 @@ func (w *World) oracleC14RequestEnd(r *Request) {
 		w.fail("C14.inverse", "added-outside-own-chains", "%s added a NAT line outside this pod's chains: %q", who, l)
 		return
 	}
+	// foreign chains and rules are the same, in the same order, after every single request (not only after full syncs)
+	if fb, fa := foreignView(r.before), foreignView(after); strings.Join(fb, "\n") != strings.Join(fa, "\n") {
+		rem, add := diffLines(fb, fa)
+		w.fail("C14.inverse", "foreign-touched-by-request", "%s changed foreign chains/rules (removed %q, added %q, or their order)", who, rem, add)
+		return
+	}
 	// sockets
 	if r.Cmd == "ADD" && !ok {
+		// which step of the port-mapping setup failed (each must leave no port open)
+		for _, fp := range [][2]string{{"cannot open hostport", "open-port"}, {"failed to save ports", "save-port-file"}, {"failed to setup port mapping", "install-rules"}, {"failed to update pod", "write-back-annotation"}} {
+			if strings.Contains(string(r.Resp), fp[0]) {
+				w.S.Stat("probe.failed-setup-at." + fp[1])
+			}
+		}
 		for _, s := range w.Net.Sockets() {
 			if s.Opener == r.ID {
 				w.fail("C14.ports", "socket-left-after-failed-setup", "%s failed (%s) but the daemon still holds %s/%d opened by it", who, strings.TrimSpace(string(r.Resp)), s.Proto, s.Port)
